@@ -293,6 +293,242 @@ def mon_sig(sc, r):
     return out
 
 
+# ------------------------------------------------------------------------------------------------ stop (C12)
+
+STOP_MS = 700
+RETRY_OVERRIDE = """
+[[profile.default.overrides]]
+filter = 'test(/^delay_/)'
+retries = { backoff = "fixed", count = 1, delay = "1500ms" }
+"""
+
+
+def gen_stop(seed, k):
+    rng = random.Random(seed * 9151 + k)
+    sc = e2e.Scenario(f"stop{k}")
+    phase = ["run", "timeout", "grace", "delay", "stop-shutdown-cont", "info", "grace-shutdown"][k % 7] if k < 14 else rng.choice(["run", "timeout", "grace", "delay", "stop-shutdown-cont", "info", "grace-shutdown"])
+    tests = []; sigs = []; extra = ""
+    P, K, G = 400, 3, 300
+    def trig_started(t): return "TestStarted " + key_of(t["bin"], t["pkg"], t["name"])
+    if phase == "run":
+        # runs 900 ms of running time under a 1200 ms deadline: stopped 700 ms in the middle it must still pass, un-signalled
+        t = {"bin": "t_one", "pkg": "alpha", "name": "work_0", "kind": "work", "run_ms": 900}
+        sc.test("t_one", "work_0", ["ignore:18", "work:900", "exit:0"]); tests.append(t)
+        t2 = {"bin": "t_two", "pkg": "alpha", "name": "fast_1", "kind": "fast", "run_ms": 30}
+        sc.test("t_two", "fast_1", ["work:30", "exit:0"]); tests.append(t2)
+        d = rng.choice([150, 300, 500])
+        sigs = [(trig_started(t), 1, d, signal.SIGTSTP), (trig_started(t), 1, d + STOP_MS, signal.SIGCONT)]
+    elif phase == "timeout":
+        P, K, G = 300, 2, rng.choice([0, 300])
+        t = {"bin": "t_one", "pkg": "alpha", "name": "hang_0", "kind": "hang_exit", "deadline": P * K}
+        sc.test("t_one", "hang_0", ["ignore:18", "onsig:15:0:0", "hang"]); tests.append(t)
+        d = rng.choice([100, 250, 450])
+        sigs = [(trig_started(t), 1, d, signal.SIGTSTP), (trig_started(t), 1, d + STOP_MS, signal.SIGCONT)]
+    elif phase == "grace":
+        P, K, G = 300, 1, 1000
+        t = {"bin": "t_one", "pkg": "alpha", "name": "ign_0", "kind": "hang_ign", "deadline": P * K}
+        sc.test("t_one", "ign_0", ["ignore:18", "ignore:15", "hang"]); tests.append(t)
+        d = rng.choice([200, 400])
+        sigs = [("TestSlow .*will_terminate=true", 1, d, signal.SIGTSTP), ("TestSlow .*will_terminate=true", 1, d + STOP_MS, signal.SIGCONT)]
+    elif phase == "delay":
+        t = {"bin": "t_one", "pkg": "alpha", "name": "delay_0", "kind": "delay", "delay": 1500}
+        sc.test("t_one", "delay_0", {"1": ["exit:1"], "2": ["work:40", "exit:0"]}); tests.append(t)
+        extra = RETRY_OVERRIDE
+        d = rng.choice([200, 600])
+        sigs = [("TestAttemptFailedWillRetry", 1, d, signal.SIGTSTP), ("TestAttemptFailedWillRetry", 1, d + STOP_MS, signal.SIGCONT)]
+    elif phase == "stop-shutdown-cont":
+        # stopped, then a shutdown signal arrives while stopped, then continued: both are seen together on resumption
+        G = 600
+        t = {"bin": "t_one", "pkg": "alpha", "name": "ign_0", "kind": "shutdown_ign"}
+        sc.test("t_one", "ign_0", ["ignore:18", "ignore:2", "hang"]); tests.append(t)
+        sigs = [(trig_started(t), 1, 300, signal.SIGTSTP), (trig_started(t), 1, 300 + 300, signal.SIGINT), (trig_started(t), 1, 300 + STOP_MS, signal.SIGCONT)]
+    elif phase == "grace-shutdown":
+        # stop during the grace period after a shutdown signal
+        G = 1000
+        t = {"bin": "t_one", "pkg": "alpha", "name": "ign_0", "kind": "shutdown_grace"}
+        sc.test("t_one", "ign_0", ["ignore:18", "ignore:15", "hang"]); tests.append(t)
+        sigs = [(trig_started(t), 1, 300, signal.SIGTERM), (trig_started(t), 1, 600, signal.SIGTSTP), (trig_started(t), 1, 600 + STOP_MS, signal.SIGCONT)]
+    else:  # info
+        t = {"bin": "t_one", "pkg": "alpha", "name": "work_0", "kind": "work", "run_ms": 800}
+        sc.test("t_one", "work_0", ["work:800", "exit:0"]); tests.append(t)
+        t2 = {"bin": "t_two", "pkg": "alpha", "name": "delay_1", "kind": "delay", "delay": 1500}
+        sc.test("t_two", "delay_1", {"1": ["exit:1"], "2": ["work:40", "exit:0"]}); tests.append(t2)
+        extra = RETRY_OVERRIDE
+        sigs = [(trig_started(t), 1, 300, signal.SIGUSR1), (trig_started(t), 1, 1100, signal.SIGUSR1)]
+    sc.config = base_config(P, K, G, extra, threads=4, leak=200)
+    sc.signals = sigs
+    sc.timeout_s = 12
+    sc.meta = {"tests": tests, "family": "stop", "phase": phase, "P": P, "K": K, "G": G}
+    return sc
+
+
+def mon_stop(sc, r):
+    out = []
+    V = lambda kind, what, **kw: out.append(mix.viol(sc, r, kind, what, kw))
+    m = sc.meta; phase, P, K, G = m["phase"], m["P"], m["K"], m["G"]
+    sent = [(ns, s) for (ns, s) in r.sent if s > 0]
+    if len(sent) != len(sc.signals) and not r.hung: return [dict(mix.viol(sc, r, "machinery", f"the supervisor sent {len(sent)} of {len(sc.signals)} signals"), machinery=True)]
+    if "panicked" in r.stderr or "internal error" in r.stderr:
+        i = r.stderr.find("panicked"); V("panic", f"[{phase}] nextest failed internally: {r.stderr[max(0, i - 50):i + 250]!r}")
+    if r.hung: V("hang", f"[{phase}] nextest did not exit within {sc.timeout_s} s (signals sent: {[s for _, s in sent]})"); return out
+    t_stop = next((ns for (ns, s) in sent if s == signal.SIGTSTP), None)
+    t_cont = next((ns for (ns, s) in sent if s == signal.SIGCONT), None)
+    if t_stop is not None:
+        st = [x for x in r.stops if x[1] == "stopped"]
+        if not st: V("not-stopped", f"[{phase}] nextest never stopped itself after SIGTSTP")
+        elif ms(st[0][0] - t_stop) > 100 + SLACK_HI: V("not-stopped", f"[{phase}] nextest stopped itself only {ms(st[0][0] - t_stop):.0f} ms after SIGTSTP")
+        paused = [ns for (ns, k, d) in r.events if k == "RunPaused"]; cont = [ns for (ns, k, d) in r.events if k == "RunContinued"]
+        if len(paused) != 1 or len(cont) != 1: V("pause-events", f"[{phase}] RunPaused x{len(paused)}, RunContinued x{len(cont)} for one stop/continue")
+    stopped_ms = ms(t_cont - t_stop) if t_stop and t_cont else 0
+    for t in m["tests"]:
+        key = key_of(t["bin"], t["pkg"], t["name"]); ps = tprocs(r, t["bin"], t["name"]); fin = finished(r, key); kind = t["kind"]
+        if not ps or not fin: V("once", f"[{phase}] test {t['name']}: {len(ps)} processes, finished={fin}"); continue
+        p = ps[0]; st = fin[0]; res, slowflag, taken = st[1], st[2] == "slow", int(st[3][:-2])
+        sigs = [(s, ms(ns - p["start"])) for (ns, s) in p["sigs"]]
+        alive_during_stop = t_stop is not None and p["start"] < t_stop and (not p.get("end") or p["end"][1] > t_stop)
+        if alive_during_stop and kind != "delay":
+            gaps = [g for (_, g) in p.get("gaps", [])]
+            if not gaps or max(gaps) < stopped_ms - 250: V("test-not-stopped", f"[{phase}] test {t['name']} was not stopped while nextest was (gaps in its own clock: {gaps}, nextest stopped {stopped_ms:.0f} ms)")
+            if 18 not in [s for (s, _) in sigs]: V("test-not-continued", f"[{phase}] test {t['name']} never received SIGCONT (signals {sigs})")
+        if kind == "work":
+            if res != "P": V("result", f"[{phase}] test {t['name']} needs {t['run_ms']} ms of running time (deadline {K * P} ms) but is reported {res}")
+            if [s for (s, _) in sigs if s in (15, 9)]: V("signalled", f"[{phase}] test {t['name']} was signalled {sigs}: time spent stopped was charged against its slow-timeout")
+            if phase == "run":
+                if taken > t["run_ms"] + 350: V("duration", f"[{phase}] test {t['name']}: reported duration {taken} ms for {t['run_ms']} ms of running time (stopped {stopped_ms:.0f} ms must be excluded)")
+                if taken < t["run_ms"] - SLACK_LO: V("duration", f"[{phase}] test {t['name']}: reported duration {taken} ms < {t['run_ms']} ms of running time")
+        elif kind == "hang_exit":
+            if res != "T": V("result", f"[{phase}] hanging test is reported {res}, expected a timeout")
+            term = [at for (s, at) in sigs if s == 15]
+            wall_deadline = t["deadline"] + (stopped_ms if alive_during_stop else 0)
+            if G > 0:
+                if not term: V("signal", f"[{phase}] no SIGTERM at the deadline (signals {sigs})")
+                else:
+                    if term[0] < wall_deadline - SLACK_LO - 60: V("early", f"[{phase}] SIGTERM {term[0]:.0f} ms after start: deadline {t['deadline']} ms of running time + {stopped_ms:.0f} ms stopped = {wall_deadline:.0f} ms")
+                    if term[0] > wall_deadline + SLACK_HI: V("late", f"[{phase}] SIGTERM only {term[0]:.0f} ms after start, expected about {wall_deadline:.0f} ms: the slow-timeout clock did not resume properly")
+            if abs(taken - t["deadline"]) > SLACK_HI // 2 + 100: V("duration", f"[{phase}] reported duration {taken} ms, expected about {t['deadline']} ms of running time")
+        elif kind == "hang_ign":
+            if res != "T": V("result", f"[{phase}] test ignoring SIGTERM is reported {res}, expected a timeout")
+            fin_ns = events_for(r, "TestFinished", key)[-1][0]
+            want = t["deadline"] + G + stopped_ms
+            got = ms(fin_ns - p["start"])
+            if got < want - SLACK_LO - 100: V("early", f"[{phase}] killed {got:.0f} ms after start; deadline {t['deadline']} + grace {G} + stopped {stopped_ms:.0f} = {want:.0f} ms")
+            if got > want + SLACK_HI: V("late", f"[{phase}] killed only {got:.0f} ms after start, expected about {want:.0f} ms: the grace-period clock did not resume")
+            if p.get("end"): V("not-killed", f"[{phase}] test recorded its own exit")
+        elif kind == "delay":
+            if len(ps) != 2: V("retry", f"[{phase}] test {t['name']}: {len(ps)} attempts, expected 2"); continue
+            gap = ms(ps[1]["start"] - ps[0]["end"][1]) if ps[0].get("end") else None
+            in_delay = t_stop is not None and ps[0].get("end") and ps[0]["end"][1] < t_stop < ps[1]["start"]
+            want = t["delay"] + (stopped_ms if t_stop is not None else 0)
+            if gap is not None and gap < want - SLACK_LO - 100: V("delay-short", f"[{phase}] retry started {gap:.0f} ms after the failed attempt; delay {t['delay']} ms + {stopped_ms:.0f} ms stopped = {want:.0f} ms")
+            if gap is not None and gap > want + SLACK_HI: V("delay-long", f"[{phase}] retry started only {gap:.0f} ms after the failed attempt, expected about {want:.0f} ms: the retry-delay clock did not resume")
+        elif kind in ("shutdown_ign", "shutdown_grace"):
+            S = 2 if kind == "shutdown_ign" else 15
+            if S not in [s for (s, _) in sigs]: V("signal", f"[{phase}] test never received the shutdown signal {S} (signals {sigs})")
+            if p.get("end"): V("not-killed", f"[{phase}] test ignoring the shutdown signal recorded its own exit")
+            if r.exit != 100: V("exit", f"[{phase}] nextest exit status {r.exit}, expected 100")
+            fin_ns = events_for(r, "TestFinished", key)[-1][0]
+            t_sh = next(ns for (ns, s) in sent if s == S)
+            # grace counts running time: from the later of (shutdown, continue) when shut down while stopped; + stopped time when stopped during grace
+            base = max(t_sh, t_cont) if kind == "shutdown_ign" else t_sh + stopped_ms * 1e6
+            got = ms(fin_ns - base)
+            if got < G - SLACK_LO - 100: V("early", f"[{phase}] killed {got:.0f} ms into a {G} ms grace period (running time)")
+            if got > G + SLACK_HI: V("late", f"[{phase}] killed {got:.0f} ms after the grace period began (grace {G} ms): the grace clock did not resume")
+    if phase == "info":
+        starts = [(ns, d) for (ns, k, d) in r.events if k == "InfoStarted"]
+        resp = [(ns, d) for (ns, k, d) in r.events if k == "InfoResponse"]
+        if len(starts) != 2: V("info", f"{len(starts)} InfoStarted events for 2 SIGUSR1")
+        # first request: work_0 Running, delay_1 in its delay; second: work_0 finished (800 ms) → only delay_1
+        for i, (ns0, d0) in enumerate(starts):
+            ns1 = starts[i + 1][0] if i + 1 < len(starts) else float("inf")
+            rs = [d for (ns, d) in resp if ns0 <= ns < ns1]
+            who = [d.split(" ")[1] for d in rs]
+            if len(set(who)) != len(who): V("info-once", f"information request {i + 1}: a unit answered more than once: {rs}")
+            for d in rs:
+                unit, state = d.split(" ")[1], d.split(" ")[2]
+                if hx("work_0") in unit and state not in ("Running", "Exiting", "Exited"): V("info-state", f"request {i + 1}: work_0 reported {state} while running")
+                if hx("delay_1") in unit and state not in ("DelayBeforeNextAttempt", "Running", "Exiting", "Exited"): V("info-state", f"request {i + 1}: delay_1 reported {state}")
+            if i == 0 and not any(hx("delay_1") in d and "DelayBeforeNextAttempt" in d for d in rs): V("info-state", f"request 1 (300 ms in): delay_1 is waiting out its retry delay but answered {rs}")
+            if i == 0 and not any(hx("work_0") in d and "Running" in d for d in rs): V("info-state", f"request 1 (300 ms in): work_0 is running but answered {rs}")
+        if r.exit != 0: V("exit", f"information requests changed the outcome: exit {r.exit}")
+    if phase in ("run", "delay") and r.exit != 0: V("exit", f"[{phase}] exit status {r.exit}, expected 0 (stop/continue must not change results)")
+    if phase in ("timeout", "grace") and r.exit != 100: V("exit", f"[{phase}] exit status {r.exit}, expected 100")
+    return out
+
+
+# ------------------------------------------------------------------------------------------------ cancel (C10 / C07)
+
+def gen_cancel(seed, k):
+    rng = random.Random(seed * 4447 + k)
+    sc = e2e.Scenario(f"cancel{k}")
+    variant = ["cancel-then-delay", "delay-then-cancel", "timeout-counts", "max-fail-2", "no-fail-fast"][k % 5]
+    tests = []; extra = ""; threads = 4; ff = "true"; P, K, G = 60000, None, 300
+    delay = 3000
+    if variant == "cancel-then-delay":
+        # A is still running when B's failure cancels the run; A then fails: its retry delay must not be sat out
+        a_ms = rng.choice([500, 800]); b_ms = rng.choice([100, 250])
+        sc.test("t_one", "a_retry", {"1": [f"work:{a_ms}", "exit:1"], "2": ["exit:0"]}); tests.append({"bin": "t_one", "pkg": "alpha", "name": "a_retry", "kind": "retry-late"})
+        sc.test("t_two", "b_fail", [f"work:{b_ms}", "exit:1"]); tests.append({"bin": "t_two", "pkg": "alpha", "name": "b_fail", "kind": "fail"})
+        extra = "\n[[profile.default.overrides]]\nfilter = 'test(a_retry)'\nretries = { backoff = \"fixed\", count = 1, delay = \"%dms\" }\n" % delay
+    elif variant == "delay-then-cancel":
+        b_ms = rng.choice([300, 600])
+        sc.test("t_one", "a_retry", {"1": ["exit:1"], "2": ["exit:0"]}); tests.append({"bin": "t_one", "pkg": "alpha", "name": "a_retry", "kind": "retry-early"})
+        sc.test("t_two", "b_fail", [f"work:{b_ms}", "exit:1"]); tests.append({"bin": "t_two", "pkg": "alpha", "name": "b_fail", "kind": "fail"})
+        extra = "\n[[profile.default.overrides]]\nfilter = 'test(a_retry)'\nretries = { backoff = \"fixed\", count = 1, delay = \"%dms\" }\n" % delay
+    elif variant == "timeout-counts":
+        threads = 1; P, K, G = 300, 1, 0
+        sc.test("t_one", "a_timeout", ["hang"]); tests.append({"bin": "t_one", "pkg": "alpha", "name": "a_timeout", "kind": "timeout"})
+        sc.test("t_two", "b_pass", ["exit:0"]); tests.append({"bin": "t_two", "pkg": "alpha", "name": "b_pass", "kind": "never"})
+        sc.test("t_three", "c_pass", ["exit:0"]); tests.append({"bin": "t_three", "pkg": "beta", "name": "c_pass", "kind": "never"})
+    elif variant == "max-fail-2":
+        threads = 1; ff = "{ max-fail = 2 }"
+        for i, (b, pkg) in enumerate([("t_one", "alpha"), ("t_one", "alpha"), ("t_two", "alpha"), ("t_three", "beta")]):
+            n = f"t{i}_" + ("fail" if i in (0, 2) else "pass")
+            sc.test(b, n, ["exit:1" if i in (0, 2) else "exit:0"]); tests.append({"bin": b, "pkg": pkg, "name": n, "kind": "ordered", "idx": i})
+    else:
+        threads = 1; ff = "false"
+        for i, (b, pkg) in enumerate([("t_one", "alpha"), ("t_two", "alpha"), ("t_three", "beta")]):
+            n = f"t{i}_fail"; sc.test(b, n, ["exit:1"]); tests.append({"bin": b, "pkg": pkg, "name": n, "kind": "all-run"})
+    sc.config = base_config(P, K, G, extra, threads=threads, fail_fast="true" if ff == "true" else ff, leak=200)
+    sc.timeout_s = 30
+    sc.meta = {"tests": tests, "family": "cancel", "variant": variant, "delay": delay}
+    return sc
+
+
+def mon_cancel(sc, r):
+    out = []
+    V = lambda kind, what, **kw: out.append(mix.viol(sc, r, kind, what, kw))
+    m = sc.meta; variant = m["variant"]
+    if r.hung: V("hang", f"[{variant}] nextest did not exit"); return out
+    cancels = [(ns, d) for (ns, k, d) in r.events if k == "RunBeginCancel"]
+    procs = [p for p in r.procs if p.get("start") and not p.get("child") and "--exact" in p.get("argv", [])]
+    last_end = max([p["end"][1] for p in procs if p.get("end")], default=r.t0)
+    if variant == "no-fail-fast":
+        if cancels: V("cancelled", f"[{variant}] fail-fast = false but the run was cancelled: {cancels}")
+        if len(procs) != 3: V("not-all-run", f"[{variant}] {len(procs)} of 3 tests ran")
+        if r.exit != 100: V("exit", f"[{variant}] exit {r.exit}")
+        return out
+    if not cancels or not cancels[0][1].startswith("TestFailure"): V("no-cancel", f"[{variant}] cancellation for test failure did not begin: {[d for _, d in cancels]}"); return out
+    tc = cancels[0][0]
+    if r.exit != 100: V("exit", f"[{variant}] exit status {r.exit}, expected 100")
+    for p in procs:
+        if p["start"] > tc + 30e6: V("start-after-cancel", f"[{variant}] a test process ({p['argv'][1]}, attempt {p['env'].get('__NEXTEST_ATTEMPT')}) started {ms(p['start'] - tc):.0f} ms after cancellation began")
+    for (ns, k, d) in r.events:
+        if k in ("TestStarted", "TestRetryStarted") and ns > tc: V("start-after-cancel", f"[{variant}] {k} emitted after cancellation began: {d}")
+    if variant in ("cancel-then-delay", "delay-then-cancel"):
+        a = tprocs(r, "t_one", "a_retry")
+        if len(a) != 1: V("retry-after-cancel", f"[{variant}] a_retry ran {len(a)} attempts; its retry must not start once the run is cancelled")
+        over = ms(r.t1 - last_end)
+        if over > SLACK_HI + 300: V("sat-out-delay", f"[{variant}] the run ended {over:.0f} ms after the last running test had ended (retry delay {m['delay']} ms): a cancelled run must not sit out retry delays")
+    if variant == "timeout-counts":
+        for t in m["tests"]:
+            if t["kind"] == "never" and tprocs(r, t["bin"], t["name"]): V("start-after-cancel", f"[{variant}] {t['name']} ran although the first test's timeout is the failure that triggers fail-fast")
+    if variant == "max-fail-2":
+        ran = sorted(p["argv"][1] for p in procs)
+        want = sorted(t["name"] for t in m["tests"] if t["idx"] <= 2)
+        if ran != want: V("max-fail", f"[{variant}] tests run {ran}; with max-fail = 2 and one thread exactly {want} run (cancellation begins at the 2nd failure)")
+    return out
+
+
 # ------------------------------------------------------------------------------------------------ running a family
 
 FAMILIES = {}
@@ -318,7 +554,11 @@ def run_family(name, seed, tier, n_quick, n_thorough, jobs=5):
 
 FAMILIES["slow"] = (gen_slow, [mon_slow])
 FAMILIES["sig"] = (gen_sig, [mon_sig])
+FAMILIES["cancel"] = (gen_cancel, [mon_cancel])
+FAMILIES["stop"] = (gen_stop, [mon_stop])
 RULES = {
+    "cancel": "end-to-end family `cancel`: fail-fast / max-fail runs where the failure arrives while another test is still running and later fails into a retry delay, or is already waiting out a retry delay; where the triggering failure is a timeout; max-fail = 2 on one thread; fail-fast off; monitors: cancellation begins exactly at the N-th failure, nothing (no test, no retry) starts afterwards, the run ends as soon as the running tests have ended (no retry delay sat out), exit 100",
+    "stop": "end-to-end family `stop`: SIGTSTP then SIGCONT 700 ms later (nextest observed stopped/continued by its parent) while a test runs below its deadline, hangs towards its slow-timeout deadline, sits in the termination grace period (after a timeout, after a shutdown signal), or waits out a retry delay; SIGINT delivered while stopped; SIGUSR1 information requests; monitors: tests stopped and continued too, results and exit status unchanged, reported durations and the slow-timeout / grace / retry-delay clocks count running time only and keep working after resumption, no hang, no internal failure, each unit answers an information request at most once with its phase",
     "sig": "end-to-end family `sig`: nextest receives SIGINT/SIGTERM/SIGHUP/SIGQUIT (optionally a second one 250 ms later) while 2-4 units are running, being terminated for a timeout, waiting out a retry delay, draining leaked handles, or while a setup script runs; units exit on the signal, ignore it (with a descendant in the group) or exit late; grace 0/300/1200 ms; monitors: same signal forwarded to every live unit and its group, SIGKILL at grace end / at once on the second signal / at once when already terminating or grace = 0, no retry and no test start after the signal, nextest exits promptly with 100 (105 during setup), nothing of a killed group survives",
     "slow": "end-to-end family `slow`: 2-4 scripted tests in parallel under slow-timeout period 250/400 ms, terminate-after none/1/2/3, grace 0/300 ms (one binary optionally overridden with its own period/terminate-after/grace); tests finish fast, finish shortly before the deadline, or hang and exit on SIGTERM / die by default action / ignore SIGTERM with a descendant in the group / exit late within the grace period; monitors on the receivers' own timestamps: no signal before terminate-after x period, SIGTERM (SIGKILL when grace = 0) at the deadline, group kill at deadline + grace, descendants signalled and dead, result Timeout, slow flag, TestSlow events",
 }
